@@ -204,10 +204,15 @@ func (s *State) getMem(key string, def *Term) *Term {
 	return def
 }
 
-func (e *Engine) consumed(s *State, id *Term) *Term { return s.getMem("consumed:"+id.String(), mkInt(0)) }
-func (e *Engine) sent(s *State, id *Term) *Term     { return s.getMem("sent:"+id.String(), mkInt(0)) }
-func (e *Engine) closed(s *State, id *Term) *Term   { return s.getMem("closed:"+id.String(), tFalse) }
-func (e *Engine) ncalls(s *State, fid *Term) *Term  { return s.getMem("ncalls:"+fid.String(), mkInt(0)) }
+func (e *Engine) consumed(s *State, id *Term) *Term {
+	return s.getMem("consumed:"+id.String(), mkInt(0))
+}
+func (e *Engine) sent(s *State, id *Term) *Term { return s.getMem("sent:"+id.String(), mkInt(0)) }
+func (e *Engine) closed(s *State, id *Term) *Term {
+	// unknown unless set: streams made here are set to false at make, results of callees are constrained by their ensures
+	return s.getMem("closed:"+id.String(), mkApp("closed0", SBool, id))
+}
+func (e *Engine) ncalls(s *State, fid *Term) *Term { return s.getMem("ncalls:"+fid.String(), mkInt(0)) }
 
 func (e *Engine) fresh(base string, s Sort) *Term {
 	e.nfresh++
